@@ -511,6 +511,7 @@ type Contract struct {
 	NoInline bool
 	Asserts  map[int][]Clause
 	After    map[string][]Clause // "callee#k" -> lemmas proved (then assumed) right after that call
+	Before   map[string][]Clause // "callee#k" -> assertions proved right before that call
 }
 
 type SpecFunc struct {
@@ -586,7 +587,7 @@ func (ss *SpecSet) parseContractLines(lines []string, pkgPath, file string) erro
 			pkgPath = rest
 			cur = nil
 		case "func", "method", "closure":
-			cur = &Contract{Key: rest, PkgPath: pkgPath, File: file, Loops: map[int]*LoopSpec{}, Asserts: map[int][]Clause{}, After: map[string][]Clause{}}
+			cur = &Contract{Key: rest, PkgPath: pkgPath, File: file, Loops: map[int]*LoopSpec{}, Asserts: map[int][]Clause{}, After: map[string][]Clause{}, Before: map[string][]Clause{}}
 			k := pkgPath + "." + rest
 			if _, dup := ss.Contracts[k]; dup {
 				return fmt.Errorf("%s: duplicate contract for %s", file, k)
@@ -674,6 +675,19 @@ func (ss *SpecSet) parseContractLines(lines []string, pkgPath, file string) erro
 				cur.NoInline = true
 			case "loop", "assert":
 				f := strings.Fields(rest)
+				if kw == "assert" && len(f) >= 3 && f[0] == "before" {
+					key := strings.TrimSuffix(f[1], ":")
+					body := strings.TrimSpace(strings.TrimPrefix(strings.TrimSpace(strings.TrimPrefix(rest, "before")), f[1]))
+					c, err := mk(body)
+					if err != nil {
+						return err
+					}
+					if !strings.Contains(key, "#") {
+						key += "#1"
+					}
+					cur.Before[key] = append(cur.Before[key], c)
+					break
+				}
 				if kw == "assert" && len(f) >= 3 && f[0] == "after" {
 					// assert after Callee#k <expr>
 					key := strings.TrimSuffix(f[1], ":")
